@@ -199,6 +199,8 @@ def _p7(ctx):
                 cond_loads = [a for a in xw.atoms.values() if a.op == 'load']
                 ctx.add('P7a', 'T-LOOP', methods['wait'], bool(cond_loads), '%s::wait re-reads the awaited cell while spinning' % adt, sub=adt + '|spin')
         ctx.add('P7e', 'T-REACH', methods['wait'], True, '%s::wait: explicit panic reachable=%s, returns normally=%s' % (adt, bool(panics), not always_panics), sub=adt + '|info')
+        if not always_panics:
+            _roles(ctx, gw, methods['wait'], adt, 2, 3, 4)
         wi[adt]['_always_panics'] = always_panics
     # P7e: the waiter installed by the futures constructors must not be one whose wait() panics, if a futures root reaches dyn Wait::wait
     installed = set()
@@ -258,6 +260,9 @@ def _p7(ctx):
         ok = x.dom(x.expand_sites(pushes), t)
         ctx.add('P7d', 'T-DOM', fw, ok, 'fut_wait reports "parked" only after the task was registered' if ok else
                 'fut_wait can return true (caller returns NotReady) without having registered the task', where=g.where(t), sub='true.bb%d' % g.nodes[t].bb)
+    for nm in (r'^multiqueue::FutWait::fut_wait$', r'^multiqueue::FutWait::park$', r'^multiqueue::FutWait::spin$'):
+        f_ = ctx.fn1(nm)
+        _roles(ctx, ctx.graph(f_), f_, short_fn(f_), 2, 3, 4)
     # no peer-blocking inside fut_wait other than the bounded sleep
     for nm in (r'^multiqueue::FutWait::notify_all$', r'^<multiqueue::FutWait as wait::Wait>::notify$'):
         fn = ctx.fn1(nm)
@@ -296,6 +301,45 @@ def _p7(ctx):
             okf = x.dom(x.expand_sites(fulls), p) if fulls else False
             ctx.add('P7c', 'T-DOM', ss, okh and oka and okf, 'send_or_park: the last send attempt and the task registration share one lock region; registration only after Full' if okh and oka and okf else
                     'send_or_park: registration under the lock=%s, send attempt inside the lock region=%s, only after Full=%s' % (okh, oka, okf), flavour=fl, where=g.where(p), sub='send_or_park')
+
+
+def _roles(ctx, g, fn, label, p_seq, p_at, p_wc):
+    """P7f: the wake-up condition uses its arguments in their roles: the writer count is compared
+    with zero, the awaited tag cell is compared with the sequence number"""
+    x = g.x
+
+    def from_param(e, pi):
+        return any(s[0] == 'param' and s[1] == g.root_inst and s[2] == pi for s in g.deep_walk(e))
+
+    wc0 = False
+    seq_at = False
+    bad = []
+    for sid in x.switches():
+        e = g.strip(g.switch_expr(sid))
+        alts = [e] if e[0] != 'phi' else [g.strip(a) for a in e[1]]
+        for a in alts:
+            if a[0] != 'bin' or a[1] not in ('Eq', 'Ne', 'Gt', 'Lt', 'Ge', 'Le'):
+                continue
+            sides = [g.strip(a[2]), g.strip(a[3])]
+            for (p, q) in ((sides[0], sides[1]), (sides[1], sides[0])):
+                lds = x.loads_in(p)
+                if not lds:
+                    continue
+                arg0s = [g.call_args(l.nid)[0] for l in lds]
+                if q[0] == 'c' and str(q[1]) == '0' and a[1] in ('Eq', 'Ne') and p[0] == 'call':
+                    if all(from_param(z, p_wc) for z in arg0s):
+                        wc0 = True
+                    elif any(from_param(z, p_at) for z in arg0s):
+                        bad.append('the awaited tag cell is compared with 0 (role of the writer count)')
+                if from_param(q, p_seq) or any(from_param(z, p_seq) for z in [q]):
+                    if all(from_param(z, p_at) for z in arg0s):
+                        seq_at = True
+                    elif any(from_param(z, p_wc) for z in arg0s):
+                        bad.append('the writer count is compared with the sequence number (role of the awaited tag cell)')
+    ok = wc0 and seq_at and not bad
+    ctx.add('P7f', 'T-FLOW', fn, ok, '%s: writers==0 and tag-vs-sequence tests use the arguments in their roles' % label if ok else
+            '%s: wake-up condition misuses its arguments (writer count tested against 0=%s, tag cell tested against the sequence=%s; %s)' % (label, wc0, seq_at, '; '.join(sorted(set(bad)))),
+            sub=label + '|roles')
 
 
 def _p8(ctx):
